@@ -17,7 +17,8 @@ type WChain struct {
 	Name    string
 	Height  uint64
 	Events  []mtypes.ExternalEvent // event nonce = index+1
-	Relayed int                    // events already claimed by the honest validators
+	Relayed int                    // events already claimed by the diligent validators
+	Cursor  map[int]int            // per validator: number of events it has claimed
 
 	LastExec map[string]uint64              // EVM: token -> last executed batch nonce
 	Known    map[uint64]*mtypes.BatchTx     // every batch the hub ever published, by batch nonce
@@ -36,7 +37,7 @@ type WChain struct {
 func NewWChain(name string) *WChain {
 	return &WChain{Name: name, Height: 1000, LastExec: map[string]uint64{}, Known: map[uint64]*mtypes.BatchTx{},
 		KnownSS: map[uint64]*mtypes.SignerSetTx{}, Executed: map[uint64]bool{}, ExecAt: map[uint64]int{},
-		NextSeq: 1, Custody: map[string]*big.Int{}, Paid: map[string]*big.Int{}}
+		NextSeq: 1, Custody: map[string]*big.Int{}, Paid: map[string]*big.Int{}, Cursor: map[int]int{}}
 }
 
 func (w *WChain) nextNonce() uint64 { return uint64(len(w.Events)) + 1 }
